@@ -1,32 +1,40 @@
 #!/bin/sh
 # usage: run.sh [name-regex]   — applies each mutant patch to a scratch worktree of /repo (outside /repo and /verif),
 # runs the property's quick check against it and expects exit 1 with a VIOLATION line.
+# SELFTEST_JOBS=n runs n mutants at a time (default 1); run.sh --one <name> handles a single mutant (used internally).
 cd "$(dirname "$0")" || exit 2
-PAT="${1:-.}"
-PASS=0; FAIL=0; FAILED=""
-for j in mutants/*.json; do
-  n=$(basename "$j" .json)
-  echo "$n" | grep -Eq "$PAT" || continue
+one() {
+  n=$1; j=mutants/$n.json
   prop=$(jq -r .property "$j"); expect=$(jq -r .expect "$j")
   W=$(mktemp -d /tmp/verif-selftest.XXXXXX)
-  for try in 1 2 3 4 5 6; do   # several runners may create worktrees at once: git serialises them with a lock
+  for try in 1 2 3 4 5 6 7 8 9 10; do   # several runners may create worktrees at once: git serialises them with a lock
     git -C /repo worktree add -q --detach "$W/r" HEAD >/dev/null 2>&1 && break
     sleep 1
   done
-  [ -d "$W/r" ] || { echo "MUTANT $n: could not create a scratch worktree"; FAIL=$((FAIL+1)); FAILED="$FAILED $n"; rm -rf "$W"; continue; }
+  [ -d "$W/r" ] || { echo "MUTANT $n: could not create a scratch worktree"; rm -rf "$W"; return; }
   if ! git -C "$W/r" apply "$PWD/mutants/$n.patch" 2>/dev/null; then
-    git -C /repo worktree remove --force "$W/r"; rm -rf "$W"
-    if [ -n "${SELFTEST_LENIENT:-}" ]; then echo "skipped $n: patch does not apply to this HEAD"; continue; fi
-    echo "MUTANT $n: patch does not apply"; FAIL=$((FAIL+1)); FAILED="$FAILED $n"; continue
+    git -C /repo worktree remove --force "$W/r" >/dev/null 2>&1; rm -rf "$W"
+    if [ -n "${SELFTEST_LENIENT:-}" ]; then echo "skipped $n: patch does not apply to this HEAD"; return; fi
+    echo "MUTANT $n: patch does not apply"; return
   fi
-  if ! (cd "$W/r" && GOFLAGS= GOPROXY=off go build ./x/... >/dev/null 2>&1); then echo "MUTANT $n: does not compile"; FAIL=$((FAIL+1)); FAILED="$FAILED $n"; git -C /repo worktree remove --force "$W/r"; rm -rf "$W"; continue; fi
+  if ! (cd "$W/r" && GOFLAGS= GOPROXY=off go build ./x/... >/dev/null 2>&1); then echo "MUTANT $n: does not compile"; git -C /repo worktree remove --force "$W/r" >/dev/null 2>&1; rm -rf "$W"; return; fi
   out=$(VERIF_TIER=quick VERIF_NO_SELFTEST=1 VERIF_EVIDENCE_DIR="$W/ev" VERIF_OUT_DIR="$W/out" ../bin/govc check "$prop" --tier quick -repo "$W/r" 2>&1); rc=$?
   git -C /repo worktree remove --force "$W/r" >/dev/null 2>&1; rm -rf "$W"
   if [ $rc -eq 1 ] && echo "$out" | grep -q "^VIOLATION property=$prop"; then
-    PASS=$((PASS+1)); echo "killed   $n ($prop): $(echo "$out" | grep -c '^VIOLATION') violation line(s), $(echo "$out" | grep '^VIOLATION' | grep -vc 'no-failing-input-found') replayed on the real code"
+    echo "killed   $n ($prop): $(echo "$out" | grep -c '^VIOLATION') violation line(s), $(echo "$out" | grep '^VIOLATION' | grep -vc 'no-failing-input-found') replayed on the real code"
   else
-    FAIL=$((FAIL+1)); FAILED="$FAILED $n"; echo "SURVIVED $n ($prop) rc=$rc"; echo "$out" | tail -3
+    echo "SURVIVED $n ($prop) rc=$rc"; echo "$out" | tail -3 | sed 's/^/    /'
   fi
-done
-echo "selftest: killed=$PASS survived=$FAIL$FAILED"
-[ $FAIL -eq 0 ]
+}
+if [ "${1:-}" = "--one" ]; then one "$2"; exit 0; fi
+PAT="${1:-.}"
+LOG=$(mktemp /tmp/verif-selftest-log.XXXXXX)
+for j in mutants/*.json; do
+  n=$(basename "$j" .json)
+  echo "$n" | grep -Eq "$PAT" && echo "$n"
+done | xargs -P "${SELFTEST_JOBS:-1}" -I{} sh "$PWD/run.sh" --one {} | tee "$LOG"
+PASS=$(grep -c '^killed ' "$LOG"); FAIL=$(grep -Ec '^(SURVIVED|MUTANT) ' "$LOG")
+FAILED=$(grep -E '^(SURVIVED|MUTANT) ' "$LOG" | awk '{print $2}' | tr -d ':' | tr '\n' ' ')
+rm -f "$LOG"
+echo "selftest: killed=$PASS survived=$FAIL $FAILED"
+[ "$FAIL" -eq 0 ]
